@@ -332,3 +332,373 @@ def replay_obj(pid, sc, r):
             "rejection": {k: r[k] for k in ("line_in_scenario", "unmatched_event", "spec_state", "invariant",
                                             "matched_prefix_tail")},
             "trace": r["scenario_trace"]}
+
+
+# ------------------------------------------------------------------ C05: chunkings, malformed headers
+BAD_HEADERS = {
+    "proto": lambda tx, u: [tx >> 8, tx & 255, 0, 1, 0, 6, u, 3, 0, 0, 0, 1],
+    "proto-hi": lambda tx, u: [tx >> 8, tx & 255, 0x80, 0, 0, 6, u, 3, 0, 0, 0, 1],
+    "len0": lambda tx, u: [tx >> 8, tx & 255, 0, 0, 0, 0, u, 3, 0, 0, 0, 1],
+    "len255": lambda tx, u: [tx >> 8, tx & 255, 0, 0, 0, 255, u] + [3] * 254,
+    "len256": lambda tx, u: [tx >> 8, tx & 255, 0, 0, 1, 0, u] + [3] * 255,
+    "len65535": lambda tx, u: [tx >> 8, tx & 255, 0, 0, 255, 255, u] + [3] * 20,
+}
+
+
+def chunkings(rng, data, thorough=False):
+    """systematic ways of splitting one stream into network reads"""
+    n = len(data)
+    out = [("all", [data]), ("bytes", [[b] for b in data])]
+    for k in (259, 260, 261, 7, 6, 8):
+        out.append((f"by{k}", [data[i:i + k] for i in range(0, n, k)]))
+    # one split at every offset (only for short streams)
+    if n <= 40 or thorough and n <= 120:
+        for i in range(1, n):
+            out.append((f"split@{i}", [data[:i], data[i:]]))
+    for _ in range(6 if thorough else 2):
+        out.append(("random", chunk_random(rng, data)))
+        out.append(("random-small", chunk_random(rng, data, maxchunk=9)))
+    # fill the receive buffer exactly, then trickle
+    if n > 260:
+        out.append(("260+bytes", [data[:260]] + [[b] for b in data[260:260 + 300]] + ([data[560:]] if n > 560 else [])))
+        out.append(("253+7+rest", [data[:253], data[253:260], data[260:]]))
+    return out
+
+
+def gen_c05(rng, sid0, thorough=False):
+    scs = []
+    sid = sid0
+    streams = []
+    # pipelined valid frames totalling 1..4 buffer capacities, with frames straddling offset 260
+    for total in ((200, 270, 520, 800, 1100) if thorough else (270, 540, 1000)):
+        for variant in range(3 if thorough else 1):
+            fr = []
+            tx = rng.randrange(65536)
+            size = 0
+            while size < total:
+                p = random_valid_pdu(rng, small=True)
+                f = mbap(tx, 1, p)
+                tx = (tx + 1) % 65536
+                fr.append(f)
+                size += len(f)
+            streams.append(("pipelined", fr, None))
+    # a max-size frame between small ones
+    big = req_wmr(0, [rng.randrange(65536) for _ in range(123)])
+    streams.append(("maxframe", [mbap(1, 1, req_read(3, 0, 2)), mbap(2, 1, big), mbap(3, 1, req_read(3, 0, 125)),
+                                 mbap(4, 1, req_wmc(0, [True] * 1968)), mbap(5, 1, req_read(1, 0, 3))], None))
+    # two short frames: every split offset
+    streams.append(("two-frames", [mbap(7, 1, req_read(1, 0, 9)), mbap(8, 1, req_wsr(5, 0xBEEF))], None))
+    # valid frames followed by each malformed header kind, followed by more valid frames (never processed)
+    for kind, mk in BAD_HEADERS.items():
+        pre = [mbap(10 + i, 1, random_valid_pdu(rng)) for i in range(rng.choice([0, 1, 3, 25]))]
+        post = [mbap(90, 1, req_wsr(1, 1)), mbap(91, 1, req_read(3, 1, 1))]
+        streams.append(("bad-" + kind, pre + [mk(0x1234, 1)] + post, kind))
+    for name, frames_b, bad in streams:
+        data = [b for f in frames_b for b in f]
+        for cname, chunks in chunkings(rng, data, thorough):
+            if cname == "bytes" and len(data) > 700:
+                continue
+            scs.append(scenario(sid, "tcp", [1], [rx(c) for c in chunks], seed=5,
+                                holes=[{"u": 1, "t": 2, "a": 100, "code": 4}], tag=f"c05-{name}-{cname}"))
+            sid += 1
+    return scs
+
+
+# ------------------------------------------------------------------ C06: CRC corruptions (RTU)
+def flip_bits(frame_b, bits):
+    f = list(frame_b)
+    for b in bits:
+        f[b // 8] ^= 1 << (b % 8)
+    return f
+
+
+def rtu_base_frames(rng):
+    return [
+        ("rc", rtu(1, req_read(1, 16, 19))),
+        ("rhr", rtu(1, req_read(3, 0, 125))),
+        ("wsc", rtu(1, req_wsc(3, True))),
+        ("wsr", rtu(2, req_wsr(65535, 0xA5A5))),
+        ("wmc-small", rtu(1, req_wmc(7, [True, False, True, True, False, False, True, False, True, True]))),
+        ("wmr-small", rtu(1, req_wmr(2, [0x1234, 0xFFFF]))),
+        ("wmr-max", rtu(1, req_wmr(0, [rng.randrange(65536) for _ in range(123)]))),
+        ("wmc-max", rtu(2, req_wmc(0, [rng.random() < 0.5 for _ in range(1968)]))),
+        ("bcast-wsr", rtu(0, req_wsr(9, 77))),
+    ]
+
+
+def gen_c06(rng, sid0, thorough=False):
+    scs = []
+    sid = sid0
+    sentinel = rtu(1, req_read(3, 40, 2))
+
+    def add(name, corrupt, chunked=None):
+        nonlocal sid
+        steps = [rx(c) for c in chunked] if chunked else [rx(corrupt)]
+        steps += [{"op": "reopen"}, rx(sentinel)]
+        scs.append(scenario(sid, "rtu", [1, 2], steps, seed=11, tag="c06-" + name))
+        sid += 1
+
+    for name, f in rtu_base_frames(rng):
+        nbits = len(f) * 8
+        short = len(f) <= 16
+        # every single-bit error
+        singles = range(nbits) if (short or thorough) else sorted(rng.sample(range(nbits), 160))
+        for b in singles:
+            add(f"{name}-1bit@{b}", flip_bits(f, [b]))
+        # double-bit errors
+        if short and thorough:
+            pairs = [(a, b) for a in range(nbits) for b in range(a + 1, nbits)]
+        else:
+            pairs = [tuple(sorted(rng.sample(range(nbits), 2))) for _ in range(600 if thorough else 60)]
+        for a, b in pairs:
+            add(f"{name}-2bit@{a},{b}", flip_bits(f, [a, b]))
+        # bursts: a window of 2..16 bits whose first and last bit are flipped, random inside
+        nb = 400 if thorough else 40
+        for _ in range(nb):
+            ln = rng.randint(2, 16)
+            st = rng.randrange(0, nbits - ln + 1)
+            inner = [st + i for i in range(1, ln - 1) if rng.random() < 0.5]
+            add(f"{name}-burst{ln}@{st}", flip_bits(f, [st, st + ln - 1] + inner))
+        # same corrupted frame under byte-per-byte and random chunkings
+        for _ in range(6 if thorough else 2):
+            c = flip_bits(f, [rng.randrange(nbits)])
+            add(f"{name}-1bit-bytes", c, chunked=[[x] for x in c])
+            add(f"{name}-1bit-rand", c, chunked=chunk_random(rng, c, maxchunk=9))
+        # the good frame, several chunkings (length derivation is chunking independent)
+        add(f"{name}-good", f)
+        add(f"{name}-good-bytes", f, chunked=[[x] for x in f])
+        add(f"{name}-good-rand", f, chunked=chunk_random(rng, f, maxchunk=5))
+    return scs
+
+
+# ------------------------------------------------------------------ C07: hostile input
+def mutate(rng, data):
+    d = list(data)
+    if not d:
+        return [rng.randrange(256)]
+    k = rng.choice(["flip", "set", "trunc", "dup", "insert", "lenlie", "splice", "boundary"])
+    i = rng.randrange(len(d))
+    if k == "flip":
+        d[i] ^= 1 << rng.randrange(8)
+    elif k == "set":
+        d[i] = rng.choice([0, 1, 0x7F, 0x80, 0xFE, 0xFF])
+    elif k == "trunc":
+        d = d[:i]
+    elif k == "dup":
+        d = d[:i] + d[i:i + rng.randint(1, 8)] * 2 + d[i:]
+    elif k == "insert":
+        d = d[:i] + [rng.randrange(256) for _ in range(rng.randint(1, 300))] + d[i:]
+    elif k == "lenlie" and len(d) > 6:
+        d[4], d[5] = rng.choice([(0, 0), (0, 1), (0, 254), (0, 255), (1, 0), (255, 255)])
+    elif k == "splice":
+        j = rng.randrange(len(d))
+        d = d[:i] + d[j:]
+    else:
+        for j in range(min(len(d), 4)):
+            d[(i + j) % len(d)] = 0xFF
+    return d
+
+
+def gen_c07(rng, sid0, n, decodes):
+    scs = []
+    lat = full_lattice(rng)
+    for k in range(n):
+        framing = rng.choice(["tcp", "rtu"])
+        units = rng.choice(UNIT_SETS)
+        kind = rng.choice(["random-bytes", "mutated", "mutated", "lattice-mix", "edge-addresses"])
+        steps = []
+        tx = rng.randrange(65536)
+        if kind == "random-bytes":
+            data = [rng.randrange(256) for _ in range(rng.choice([1, 5, 8, 60, 300, 900]))]
+            steps = [rx(c) for c in chunk_random(rng, data)]
+        elif kind == "edge-addresses":
+            for _ in range(rng.randint(1, 10)):
+                fc = rng.choice(KNOWN)
+                c = rng.choice([1, 2, 125, 2000, 1968, 123])
+                s = rng.choice([65535, 65534, 65536 - c if c <= 65536 else 0, 65535 - c])
+                s = max(0, min(65535, s))
+                if fc in (1, 2, 3, 4):
+                    p = req_read(fc, s, c)
+                elif fc == 5:
+                    p = req_wsc(s, True)
+                elif fc == 6:
+                    p = req_wsr(s, 0xFFFF)
+                elif fc == 15:
+                    p = req_wmc(s, [True] * min(c, 1968))
+                else:
+                    p = req_wmr(s, [0xFFFF] * min(c, 123))
+                steps.append(rx(frame(framing, tx, pick_unit(rng, units, framing), p)))
+                tx = (tx + 1) % 65536
+        else:
+            for _ in range(rng.randint(1, 12)):
+                p = random_valid_pdu(rng) if rng.random() < 0.6 else random_invalid_pdu(rng, lat)
+                f = frame(framing, tx, pick_unit(rng, units, framing), p)
+                tx = (tx + 1) % 65536
+                if kind == "mutated" and rng.random() < 0.5:
+                    for _ in range(rng.randint(1, 3)):
+                        f = mutate(rng, f)
+                if f:
+                    steps.append(rx(f))
+            if rng.random() < 0.5:
+                data = [b for s in steps for b in s["bytes"]]
+                steps = [rx(c) for c in chunk_random(rng, data)]
+        # once the session has ended (bad frame), an RTU server re-opens; a sentinel exchange follows
+        if framing == "rtu":
+            steps += [{"op": "reopen"}]
+        u = units[0] if units else 1
+        steps.append(rx(frame(framing, 0x4242, u, req_read(3, 7, 2))))
+        if rng.random() < 0.3:
+            steps.insert(rng.randrange(len(steps)), {"op": "decode", "level": rng.choice(DECODES)})
+        auth = rng.choice([None, None, {"policy": "hash", "seed": rng.randrange(9), "role": "r"}])
+        scs.append(scenario(sid0 + k, framing, units, steps, auth=auth, decode=rng.choice(decodes),
+                            seed=rng.randrange(1000), holes=[{"u": u, "t": 2, "a": 8, "code": 4}] if rng.random() < 0.3 else [],
+                            tag="c07-" + kind))
+    return scs
+
+
+# ------------------------------------------------------------------ C08: authorization
+ROLES = ["", "operator", "viewer", "role with spaces", "x" * 200, "rôle-üñï"]
+
+
+def gen_c08(rng, sid0, thorough=False):
+    scs = []
+    sid = sid0
+    kinds = [lambda: req_read(1, rng.randrange(100), rng.randint(1, 20)),
+             lambda: req_read(2, rng.randrange(100), rng.randint(1, 20)),
+             lambda: req_read(3, rng.randrange(100), rng.randint(1, 20)),
+             lambda: req_read(4, rng.randrange(100), rng.randint(1, 20)),
+             lambda: req_wsc(rng.randrange(100), rng.random() < 0.5),
+             lambda: req_wsr(rng.randrange(100), rng.randrange(65536)),
+             lambda: req_wmc(rng.randrange(100), [rng.random() < 0.5 for _ in range(rng.randint(1, 20))]),
+             lambda: req_wmr(rng.randrange(100), [rng.randrange(65536) for _ in range(rng.randint(1, 10))])]
+    # the grid: 8 kinds x {allow, deny, readonly} x {configured, unconfigured unit} x roles, both framings
+    for framing in ("tcp", "rtu"):
+        for policy in ("allow", "deny", "readonly"):
+            for role in ROLES:
+                steps = []
+                tx = 1
+                for mk in kinds:
+                    for unit in (1, 9) + ((0,) if framing == "rtu" else ()):
+                        p = mk()
+                        steps.append(rx(frame(framing, tx, unit, p)))
+                        if p[0] in (5, 6, 15, 16):
+                            steps.append(rx(frame(framing, tx + 1, 1, readback_of(p))))
+                        tx += 2
+                scs.append(scenario(sid, framing, [1, 2], steps, auth={"policy": policy, "seed": 0, "role": role},
+                                    seed=rng.randrange(100), tag=f"c08-grid-{policy}"))
+                sid += 1
+    # random per-request policies: the decision varies with kind, unit, range -> an earlier allow
+    # must not carry over; invalid requests in between are never shown to the handler
+    lat = full_lattice(rng)
+    for k in range(300 if thorough else 50):
+        framing = rng.choice(["tcp", "rtu"])
+        units = rng.choice([[1], [1, 2], [3, 17, 200]])
+        steps = []
+        tx = rng.randrange(60000)
+        for _ in range(rng.randint(5, 40)):
+            r = rng.random()
+            if r < 0.15:
+                p = random_invalid_pdu(rng, lat)
+                if framing == "rtu" and not rtu_delimitable(p):
+                    continue
+            else:
+                p = rng.choice(kinds)()
+            u = pick_unit(rng, units, framing, 0.2)
+            steps.append(rx(frame(framing, tx, u, p)))
+            tx += 1
+            if r >= 0.15 and p[0] in (5, 6, 15, 16) and rng.random() < 0.5:
+                steps.append(rx(frame(framing, tx, u, readback_of(p))))
+                tx += 1
+        if rng.random() < 0.4:
+            data = [b for s in steps for b in s["bytes"]]
+            steps = [rx(c) for c in chunk_random(rng, data)]
+        scs.append(scenario(sid, framing, units, steps,
+                            auth={"policy": "hash", "seed": rng.randrange(1000), "role": rng.choice(ROLES)},
+                            seed=rng.randrange(100), holes=[{"u": units[0], "t": 2, "a": 50, "code": 4}, {"u": units[0], "t": 0, "a": 60, "code": 2}],
+                            tag="c08-hash"))
+        sid += 1
+    return scs
+
+
+# ------------------------------------------------------------------ C17: multi-drop discipline
+def gen_c17(rng, sid0, thorough=False):
+    scs = []
+    sid = sid0
+    unit_ids = list(range(256)) if thorough else sorted(set([0, 1, 2, 3, 17, 200, 246, 247, 248, 254, 255] +
+                                                           [rng.randrange(256) for _ in range(8)]))
+    maps = [[], [1], [1, 2], [3, 17, 200], [0, 5], [255]]
+    lat = full_lattice(rng)
+    invalid = [p for p, n in lat if p and p[0] in KNOWN]
+    for framing in ("rtu", "tcp"):
+        for units in maps:
+            steps = []
+            tx = 100
+            for u in unit_ids:
+                cands = [req_read(rng.choice([1, 2, 3, 4]), 5, 3),                    # valid read
+                         req_wsr(6, u * 3 + 1),                                         # valid write
+                         req_wmc(4, [True, False, True]),
+                         req_read(3, 98, 5),                                            # fails in the handler
+                         req_wsc(99, True),                                             # write failing in the handler
+                         req_read(1, 0, 2001),                                          # over limit
+                         req_wsc(1, True, raw=0x1234),                                  # malformed
+                         [0x2B, 0x0E, 1, 0]]                                            # unknown function
+                for p in rng.sample(cands, 4 if not thorough else len(cands)):
+                    if framing == "rtu" and not rtu_delimitable(p):
+                        continue
+                    steps.append(rx(frame(framing, tx, u, p)))
+                    tx = (tx + 1) % 65536
+            # read back what broadcast / addressed writes left behind, on every configured unit
+            for u in units:
+                if not (framing == "rtu" and u == 0):
+                    steps.append(rx(frame(framing, tx, u, req_read(3, 4, 4))))
+                    steps.append(rx(frame(framing, tx + 1, u, req_read(1, 3, 5))))
+                    tx += 2
+            holes = [{"u": u, "t": 2, "a": 100, "code": 4} for u in units] + [{"u": u, "t": 0, "a": 99, "code": 2} for u in units]
+            scs.append(scenario(sid, framing, units, steps, seed=rng.randrange(100), holes=holes,
+                                tag=f"c17-{framing}-units{len(units)}"))
+            sid += 1
+    # sequences mixing broadcast writes with addressed traffic under random chunking
+    for k in range(60 if thorough else 12):
+        units = rng.choice(maps[1:5])
+        steps = []
+        for _ in range(rng.randint(3, 25)):
+            u = rng.choice([0, 0, rng.choice(units), 9, 255])
+            p = rng.choice([random_valid_pdu(rng), rng.choice(invalid)])
+            if not rtu_delimitable(p):
+                continue
+            steps.append(rx(rtu(u, p)))
+        data = [b for s in steps for b in s["bytes"]]
+        if rng.random() < 0.5:
+            steps = [rx(c) for c in chunk_random(rng, data)]
+        scs.append(scenario(sid, "rtu", units, steps, seed=rng.randrange(100),
+                            auth=rng.choice([None, None, {"policy": "hash", "seed": 3, "role": "x"}]),
+                            holes=holes_for(rng, units, [s["bytes"][1:-2] for s in steps], 0.2), tag="c17-bcast-seq"))
+        sid += 1
+    return scs
+
+
+# ------------------------------------------------------------------ C20: decode levels
+def with_decode_variants(rng, scs, sid0, positions=2, all_levels=False):
+    """every script at the lowest and the highest level (or all 36) and with level changes injected"""
+    out = []
+    sid = sid0
+    levels = DECODES if all_levels else [[0, 0, 0], [3, 2, 2]]
+    for sc in scs:
+        for lv in levels:
+            c = dict(sc)
+            c["id"] = sid
+            c["decode"] = lv
+            c["tag"] = sc["tag"] + f"+dec{lv}"
+            out.append(c)
+            sid += 1
+        n = len(sc["steps"])
+        pos = range(n + 1) if positions is None else sorted(set(rng.randrange(n + 1) for _ in range(positions)))
+        for p in pos:
+            c = dict(sc)
+            c["id"] = sid
+            c["decode"] = rng.choice(DECODES)
+            c["steps"] = sc["steps"][:p] + [{"op": "decode", "level": rng.choice(DECODES)}] + sc["steps"][p:]
+            c["tag"] = sc["tag"] + f"+setdec@{p}"
+            out.append(c)
+            sid += 1
+    return out
